@@ -54,6 +54,36 @@ def mode_arg(mode, h):
     return Mode(mode)
 
 
+class CIStr(str):
+    """a str subclass with a wider (case-insensitive) equality and a consistent hash: legal, and names given this way are matched
+    wherever the library compares with =="""
+
+    def __eq__(self, other):
+        return isinstance(other, str) and str.lower(self) == str.lower(other)
+
+    def __ne__(self, other):
+        return not self.__eq__(other)
+
+    def __hash__(self):
+        return hash(str.lower(self))
+
+
+def twin(m, h):
+    """the message as another process / another part of the application gets it: through pickle (multiprocessing), copy.deepcopy or
+    copy.copy - a UBXMessage like any other; three observations in eight look at a twin instead of the original"""
+    r = h % 8
+    if m is None or r not in (1, 2, 3):
+        return m
+    import copy
+    import pickle
+
+    if r == 1:
+        return pickle.loads(pickle.dumps(m, protocol=(h // 8) % 6))
+    if r == 2:
+        return copy.deepcopy(m)
+    return copy.copy(m)
+
+
 def taint(m):
     """what a caller may do with a result it owns: change, in place, every mutable PUBLIC value it was handed (lists of array
     attributes).  Another parse of the same bytes must not be affected"""
